@@ -298,14 +298,22 @@ impl AnnotatedLexer<'_> {
             return Err(LexError::UnexpectedEOF);
         };
         if let Ok(ref item) = item {
-            if self.raw_token == RawToken::default() {
-                self.raw_token = item.clone().into();
-            } else {
-                self.raw_token = RawToken::new(
-                    format!("{} {}", self.raw_token.raw_text(), item.raw_text()),
-                    Range::new(*self.raw_token.range().start(), *item.range().end()),
-                    self.raw_token.file(),
-                );
+            // A line terminator or a comment read while looking for further
+            // operands is not part of the statement and must not extend its range
+            let outside = matches!(
+                item.token_type(),
+                TokenType::Newline | TokenType::Comment(_)
+            );
+            if !outside {
+                if self.raw_token == RawToken::default() {
+                    self.raw_token = item.clone().into();
+                } else {
+                    self.raw_token = RawToken::new(
+                        format!("{} {}", self.raw_token.raw_text(), item.raw_text()),
+                        Range::new(*self.raw_token.range().start(), *item.range().end()),
+                        self.raw_token.file(),
+                    );
+                }
             }
         }
         item
